@@ -261,10 +261,19 @@ def suite_c03(g, tier, rnd):
              '40010001d20301', '40010001d2030102', '40010001d003', '40010001d103aa', '40010001d203aaaa',
              '40e10001' + '2400', '40010001' + 'd1ef00' + 'd1ef00', '40010001' + 'e1fefe00' + 'e1000100',
              '40010001' + 'e0fefe' + 'e00001', '40010001' + 'e0fefe' + '10' + '10']
+    # the running option number reaches the top of the 16-bit range with one long delta, then a SHORT delta (1..12, 13+k) takes it to, or past,
+    # 65535: numbers beyond are not CoAP option numbers (they must not wrap into small ones)
+    for B in (65523, 65524, 65530, 65534, 65535):
+        for d in (1, 2, 5, 11, 12):
+            hexes.append('40010001' + 'e0%04x' % (B - 269) + '%x0' % d)
+            hexes.append('40010001' + 'b161' + 'e0%04x' % (B - 11 - 269) + '%x1aa' % d)
+        hexes.append('40010001' + 'e0%04x' % (B - 269) + 'd000')
+        hexes.append('40010001' + 'e0%04x' % (B - 269) + 'd0%02x' % (65535 - B + 1))
     for h in hexes:
         g.case('C03', 'c03.handmade', ['hex udp ' + h])
     for h in ['00', '0001', '1001aa', '01', '1145b1', 'd0', 'd00001', 'd000010000000000000000000000000000', '2001b161',
-              '3001b161', '2045ff61', '1045ff', 'e0000001', 'f0000000000001', '0fe1', '0de100' + 'aa' * 13, '00e12400']:
+              '3001b161', '2045ff61', '1045ff', 'e0000001', 'f0000000000001', '0fe1', '0de100' + 'aa' * 13, '00e12400',
+              '4001' + 'e0fef2' + '50', '4001' + 'e0fef2' + 'c0', '5001' + 'e0fef2' + 'd000', '4001' + 'e0fef1' + 'c0']:
         g.case('C03', 'c03.handmade', ['hex tcp ' + h])
         g.case('C03', 'c03.handmade', ['hex ws ' + h])
     # per-option length table: every known option at min-1, min, max, max+1
